@@ -47,7 +47,7 @@ func (b behaviour) String() string {
 	return fmt.Sprintf("status=%d hdr=%d body=%d mode=%s", b.status, b.hdr, b.body, modeNames[b.mode])
 }
 
-var modeNames = []string{"plain", "flush", "hijack", "early-hints", "flush-first"}
+var modeNames = []string{"plain", "flush", "hijack", "early-hints", "flush-first", "announced-trailer"}
 
 func behaviours() []behaviour {
 	var out []behaviour
@@ -62,7 +62,10 @@ func behaviours() []behaviour {
 		behaviour{404, 1, 1, 3}, behaviour{500, 0, 2, 3}, behaviour{0, 0, 1, 3},
 		// the handler's FIRST action on the writer is Flush (an event stream opening: headers set, implicit 200 pushed
 		// out), followed by a superfluous WriteHeader(500) that net/http ignores because the response is committed
-		behaviour{0, 1, 1, 4}, behaviour{0, 0, 2, 4})
+		behaviour{0, 1, 1, 4}, behaviour{0, 0, 2, 4},
+		// a trailer announced in the Trailer header and given its value after the status line has gone out (a checksum, an
+		// outcome): with a body, with an empty Write only, and with NO Write at all
+		behaviour{200, 0, 2, 5}, behaviour{200, 0, 0, 5}, behaviour{200, 1, 1, 5})
 	return out
 }
 
@@ -147,8 +150,14 @@ func (w *world) inner() http.Handler {
 			fl.Flush()
 			rw.WriteHeader(http.StatusInternalServerError)
 		}
+		if b.mode == 5 {
+			rw.Header().Set("Trailer", "X-Outcome")
+		}
 		if b.status != 0 {
 			rw.WriteHeader(b.status)
+		}
+		if b.mode == 5 {
+			defer func() { rw.Header().Set("X-Outcome", "complete") }()
 		}
 		for i, p := range parts {
 			rw.Write([]byte(p))
@@ -297,15 +306,16 @@ func build(cfg stackCfg, h http.Handler) (http.Handler, error) {
 }
 
 type result struct {
-	status int
-	header http.Header
-	body   []byte
-	nresp  int
-	info   []int  // informational (1xx) responses that preceded the final one
-	names  string // header names of the final response exactly as they were on the wire
-	early  bool   // the flushed first chunk was seen before the rest was written
-	err    string
-	raw    []byte
+	status  int
+	header  http.Header
+	body    []byte
+	nresp   int
+	info    []int  // informational (1xx) responses that preceded the final one
+	names   string // header names of the final response exactly as they were on the wire
+	trailer string // value of the announced trailer X-Outcome as the client received it after the body
+	early   bool   // the flushed first chunk was seen before the rest was written
+	err     string
+	raw     []byte
 }
 
 // exchange performs one request over a fresh TCP connection.
@@ -358,6 +368,7 @@ func (w *world) exchange(body []byte, wantEarly string) result {
 	}
 	if len(rs) > 0 {
 		res.status, res.header, res.body = rs[0].StatusCode, rs[0].Header, bodies[0]
+		res.trailer = strings.Join(rs[0].Trailer["X-Outcome"], ",")
 	}
 	res.names = wireHeaderNames(res.raw)
 	return res
@@ -528,6 +539,8 @@ func runStack(w *world, ks []string, verbose bool, base map[behaviour]result, re
 			rep.Violate("C20:status-altered:"+cls, fmt.Sprintf("[%s] %v: status %d through the stack, %d from the bare handler", name, b, res.status, want.status), what)
 		case !bytes.Equal(res.body, want.body):
 			rep.Violate("C20:body-altered:"+cls, fmt.Sprintf("[%s] %v: body %.60q through the stack, %.60q from the bare handler", name, b, res.body, want.body), what)
+		case b.mode == 5 && res.trailer != want.trailer:
+			rep.Violate("C20:trailer-altered:"+cls, fmt.Sprintf("[%s] %v: announced trailer X-Outcome=%q through the stack, %q from the bare handler", name, b, res.trailer, want.trailer), what)
 		case sig(res.header, b.hdr == 2) != sig(want.header, b.hdr == 2):
 			rep.Violate("C20:headers-altered:"+cls, fmt.Sprintf("[%s] %v: headers %s through the stack, %s from the bare handler", name, b, sig(res.header, b.hdr == 2), sig(want.header, b.hdr == 2)), what)
 		case b.mode != 2 && res.names != want.names:
